@@ -85,7 +85,7 @@ CHECKS["C01"] = dict(
 CHECKS["C02"] = dict(
     stages=[stage("C02", harness="VPSC", props=["C02."], case_timeout=120,
                   quick=dict(cases=60000, size=100, shards=12),
-                  thorough=dict(cases=3000000, size=100, shards=16))],
+                  thorough=dict(cases=400000, size=100, shards=16))],
     technique="rapidcheck property-based testing against an independent self-certifying QP oracle (Hildreth dual ascent + "
               "active-set polish + duality-gap certificate); permutation metamorphic relation",
     level_text="Generated feasible VPSC instances (acyclic with weights 2^-3..2^6 and scales, or cyclic built from a witness "
@@ -227,7 +227,7 @@ CHECKS["C18"] = dict(
 )
 
 CHECKS["C14"] = dict(
-    stages=[stage("C14", quick=dict(cases=1440, size=100, shards=16, timeout=1500), thorough=dict(cases=45000, size=100, shards=16), case_timeout=900)],
+    stages=[stage("C14", quick=dict(cases=1440, size=100, shards=16, timeout=1500), thorough=dict(cases=15000, size=100, shards=16), case_timeout=900)],
     technique="rapidcheck property-based testing: generated connected graphs through doHOLA, validity predicates over the returned drawing",
     level_text="Generated connected simple graphs (trees, cycles, tree+chords, dense core with hanging trees, hubs; 2-30 nodes quick, "
                "2-60 thorough; node sizes 10-100; random and coincident initial positions) built through TGLF or through the Graph API, with "
